@@ -237,6 +237,28 @@ def main(tier):
                         run.report(None, 'fexp-%d' % cid, dict(payload, focused=x, unfocused=full.get(x['peer'])),
                                    'the exposure data of the focused workload differs from its exposure data without --focusworkload')
                         break
+            # (a'') with Services / Ingresses / Routes in the input: the {ingress-controller} lines are part of the base report too
+            icmds, imeta = [], []
+            for cid, W in scen[:max(6, len(scen) // 6)]:
+                from . import c10
+                W3 = copy.deepcopy(W)
+                for w in W3['workloads']:
+                    if not w['ports']:
+                        w['ports'].append({'port': r.choice(gen.PORTS), 'proto': 'TCP', 'name': ''})
+                W3['others'] = [c10.manifest(o) for o in c10.gen_ingress_objs(r, W3)]
+                dd = h.dir_for('i%d' % cid)
+                gen.write_dir(dd, [m for m, _ in gen.docs(W3)])
+                icmds += [{'id': 'ix', 'cmd': 'list', 'dir': dd, 'exposure': True}, {'id': 'ib', 'cmd': 'list', 'dir': dd}]
+                imeta.append((cid, W3))
+            iouts = h.run(icmds) if icmds else []
+            for j, (cid, W3) in enumerate(imeta):
+                ix, ib = iouts[2 * j], iouts[2 * j + 1]
+                run.dist('ingress-objects-pairs')
+                if ib['outcome'] == 'ok' and (ix['outcome'] != 'ok' or conns_key(ix) != conns_key(ib)):
+                    run.report(None, 'ibase-%d' % cid, {'kind': 'exposure-base-ingress', 'world': W3, 'manifests': [m for m, _ in gen.docs(W3)],
+                                                       'with_exposure': ix.get('conns'), 'without': ib.get('conns'), 'error': ix.get('err'),
+                                                       'how': 'k8snetpolicy list --dirpath DIR --exposure  vs  k8snetpolicy list --dirpath DIR  (input with Services/Ingresses/Routes)'},
+                               'with Ingress/Route objects in the input, list --exposure reports other connectivity than list')
             # (b) model correspondence
             for cid, code in mm[:4]:
                 W = byid[cid]
